@@ -234,7 +234,7 @@ def listSet (l : List Item) (i : Int) (v : Item) : Option (List Item) :=
   let j : Int := if i < 0 then i + l.length else i
   if j < 0 || j ≥ l.length then none else some (l.set j.toNat v)
 
-def visitFunctionDef (st : RW) (node : Node) : RW × Node :=
+def visitFunctionDefRaw (st : RW) (node : Node) : RW × Node :=
   let searchInit := st.search.take (st.search.length - 1)
   if !st.replaced && node.loc == some searchInit then
     match node.nodeField "args" with
@@ -297,26 +297,44 @@ def visitFunctionDef (st : RW) (node : Node) : RW × Node :=
         ({ st with replaced := st.replaced || r1 || r2 }, node.setField "args" (.node args))
   else (st, node)
 
+/-- `RewriteAtQuery.visit_FunctionDef`; `self.search` is never assigned by the Python, which the
+    wrapper makes syntactically evident (the raw function only ever copies it). -/
+def visitFunctionDef (st : RW) (node : Node) : RW × Node :=
+  let r := visitFunctionDefRaw st node
+  ({ r.1 with search := st.search }, r.2)
+
+/-! `NodeTransformer.visit` / `generic_visit`, total by mutual structural recursion over the nested
+    inductive. `visit_FunctionDef` does not descend (the Python returns `node` without calling
+    `generic_visit`), so nothing below a `FunctionDef` is ever visited. -/
 mutual
-  partial def visit (st : RW) (node : Node) : RW × Node :=
-    if st.err.isSome then (st, node)
-    else if node.kind == "FunctionDef" then visitFunctionDef st node
-    else genericVisit st node
-  partial def genericVisit (st : RW) (node : Node) : RW × Node :=
-    if !st.replaced && node.loc == some st.search then ({ st with replaced := true }, st.repl)
-    else
-      let (st, fields) := node.fields.foldl (fun (acc : RW × List (String × Field)) (k, f) =>
-        let (st, out) := acc
-        match f with
-        | .node m => let (st', m') := visit st m; (st', out ++ [(k, .node m')])
-        | .list items =>
-          let (st', items') := items.foldl (fun (a : RW × List Item) it =>
-            match it with
-            | .node m => let (s', m') := visit a.1 m; (s', a.2 ++ [.node m'])
-            | x => (a.1, a.2 ++ [x])) (st, [])
-          (st', out ++ [(k, .list items')])
-        | other => (st, out ++ [(k, other)])) (st, [])
-      (st, node.setFields fields)
+  def visit (st : RW) : Node → RW × Node
+    | .mk k fs l i d =>
+      if st.err.isSome then (st, .mk k fs l i d)
+      else if k == "FunctionDef" then visitFunctionDef st (.mk k fs l i d)
+      else if !st.replaced && l == some st.search then ({ st with replaced := true }, st.repl)
+      else
+        let (st', fs') := visitFields st fs
+        (st', .mk k fs' l i d)
+  def visitFields (st : RW) : List (String × Field) → RW × List (String × Field)
+    | [] => (st, [])
+    | (k, f) :: rest =>
+      let (st1, f') := visitField st f
+      let (st2, rest') := visitFields st1 rest
+      (st2, (k, f') :: rest')
+  def visitField (st : RW) : Field → RW × Field
+    | .atom a => (st, .atom a)
+    | .missing => (st, .missing)
+    | .node n => let (s, n') := visit st n; (s, .node n')
+    | .list items => let (s, items') := visitItems st items; (s, .list items')
+  def visitItems (st : RW) : List Item → RW × List Item
+    | [] => (st, [])
+    | it :: rest =>
+      let (st1, it') := visitItem st it
+      let (st2, rest') := visitItems st1 rest
+      (st2, it' :: rest')
+  def visitItem (st : RW) : Item → RW × Item
+    | .node n => let (s, n') := visit st n; (s, .node n')
+    | .atom a => (st, .atom a)
 end
 
 end PyAst
